@@ -6,11 +6,133 @@
 /* Ghost globals.  Objects with static lifetime are zero-initialised in CBMC, so every ghost is
  * listed here once and havocked by the generated entry point before the harness body runs
  * (v_havoc_ghosts, vcommon.h).  A ghost that is not in this list would silently be 0. */
-#define GHOSTS(X) \
+#define GHOSTS_BASE(X) \
     X(size_t, gk) X(size_t, gj) X(size_t, gi) X(size_t, g_canary) \
     X(size_t, g_cap) X(_Bool, g_wrapped) \
     X(size_t, g_trim_oldlen) \
     X(size_t, g_cmp_n) X(const void *, g_last_key) X(int, g_last_res) X(const void *, g_wit_key) X(int, g_wit_res)
+/* per-module fragments: contracts/ghost_<module>.h may define GHOSTS_<MODULE>(X) plus spec macros */
+#if __has_include("ghost_c01.h")
+#include "ghost_c01.h"
+#endif
+#ifndef GHOSTS_C01
+#define GHOSTS_C01(X)
+#endif
+#if __has_include("ghost_c02.h")
+#include "ghost_c02.h"
+#endif
+#ifndef GHOSTS_C02
+#define GHOSTS_C02(X)
+#endif
+#if __has_include("ghost_c03.h")
+#include "ghost_c03.h"
+#endif
+#ifndef GHOSTS_C03
+#define GHOSTS_C03(X)
+#endif
+#if __has_include("ghost_c04.h")
+#include "ghost_c04.h"
+#endif
+#ifndef GHOSTS_C04
+#define GHOSTS_C04(X)
+#endif
+#if __has_include("ghost_c05.h")
+#include "ghost_c05.h"
+#endif
+#ifndef GHOSTS_C05
+#define GHOSTS_C05(X)
+#endif
+#if __has_include("ghost_c06.h")
+#include "ghost_c06.h"
+#endif
+#ifndef GHOSTS_C06
+#define GHOSTS_C06(X)
+#endif
+#if __has_include("ghost_c07.h")
+#include "ghost_c07.h"
+#endif
+#ifndef GHOSTS_C07
+#define GHOSTS_C07(X)
+#endif
+#if __has_include("ghost_c08.h")
+#include "ghost_c08.h"
+#endif
+#ifndef GHOSTS_C08
+#define GHOSTS_C08(X)
+#endif
+#if __has_include("ghost_c09.h")
+#include "ghost_c09.h"
+#endif
+#ifndef GHOSTS_C09
+#define GHOSTS_C09(X)
+#endif
+#if __has_include("ghost_c10.h")
+#include "ghost_c10.h"
+#endif
+#ifndef GHOSTS_C10
+#define GHOSTS_C10(X)
+#endif
+#if __has_include("ghost_c11.h")
+#include "ghost_c11.h"
+#endif
+#ifndef GHOSTS_C11
+#define GHOSTS_C11(X)
+#endif
+#if __has_include("ghost_c12.h")
+#include "ghost_c12.h"
+#endif
+#ifndef GHOSTS_C12
+#define GHOSTS_C12(X)
+#endif
+#if __has_include("ghost_c13.h")
+#include "ghost_c13.h"
+#endif
+#ifndef GHOSTS_C13
+#define GHOSTS_C13(X)
+#endif
+#if __has_include("ghost_c14.h")
+#include "ghost_c14.h"
+#endif
+#ifndef GHOSTS_C14
+#define GHOSTS_C14(X)
+#endif
+#if __has_include("ghost_c15.h")
+#include "ghost_c15.h"
+#endif
+#ifndef GHOSTS_C15
+#define GHOSTS_C15(X)
+#endif
+#if __has_include("ghost_c16.h")
+#include "ghost_c16.h"
+#endif
+#ifndef GHOSTS_C16
+#define GHOSTS_C16(X)
+#endif
+#if __has_include("ghost_c17.h")
+#include "ghost_c17.h"
+#endif
+#ifndef GHOSTS_C17
+#define GHOSTS_C17(X)
+#endif
+#if __has_include("ghost_c18.h")
+#include "ghost_c18.h"
+#endif
+#ifndef GHOSTS_C18
+#define GHOSTS_C18(X)
+#endif
+#if __has_include("ghost_c19.h")
+#include "ghost_c19.h"
+#endif
+#ifndef GHOSTS_C19
+#define GHOSTS_C19(X)
+#endif
+#if __has_include("ghost_sm.h")
+#include "ghost_sm.h"
+#endif
+#ifndef GHOSTS_SM
+#define GHOSTS_SM(X)
+#endif
+#define GHOSTS(X) GHOSTS_BASE(X) GHOSTS_C01(X) GHOSTS_C02(X) GHOSTS_C03(X) GHOSTS_C04(X) GHOSTS_C05(X) GHOSTS_C06(X) GHOSTS_C07(X) GHOSTS_C08(X) GHOSTS_C09(X) GHOSTS_C10(X) GHOSTS_C11(X) GHOSTS_C12(X) GHOSTS_C13(X) GHOSTS_C14(X) GHOSTS_C15(X) GHOSTS_C16(X) GHOSTS_C17(X) GHOSTS_C18(X) GHOSTS_C19(X) GHOSTS_SM(X)
 #define GHOST_DECL(T, n) T n;
 GHOSTS(GHOST_DECL)
 #ifndef VCAP
